@@ -15,21 +15,42 @@ namespace Icontract.Meta
 /-- **Collapse rule** (`_decorate_namespace_function`, inherited members): when the collapse is
 accepted and there is something to install, the function's checker shows exactly
 `base groups ++ own groups`, `base snapshots ++ own snapshots`, `base postconditions ++ own
-postconditions` - inherited first. -/
+postconditions` - inherited first.  The groups collected from the bases are *copied*: the outer list
+holds `bPre.length` fresh cells (the consecutive new indices) followed by the function's own group
+cells, and - whenever the collected and own group references point into the heap - the group
+*contents* shown are the base groups' contents followed by the own groups' contents. -/
 theorem C04_collapse_is_base_then_own (w w' : World) (key : String) (f : FnId)
     (have_ : Bool) (bPre bSnaps bPosts : List Nat)
     (hok : decorateOne w key f true (have_, bPre, bSnaps, bPosts) = .ok w')
     (hsome : ¬ ((bPre ++ (match w.checker? f with | some ck => w.heap.get ck.pre | none => [])).isEmpty = true ∧
                (bPosts ++ (match w.checker? f with | some ck => w.heap.get ck.posts | none => [])).isEmpty = true)) :
     ∃ ck', w'.checker? f = some ck' ∧
-      w'.heap.get ck'.pre = bPre ++ (match w.checker? f with | some ck => w.heap.get ck.pre | none => []) ∧
+      w'.heap.get ck'.pre = List.range' w.heap.length bPre.length ++
+        (match w.checker? f with | some ck => w.heap.get ck.pre | none => []) ∧
+      ((∀ g ∈ bPre ++ (match w.checker? f with | some ck => w.heap.get ck.pre | none => []), g < w.heap.length) →
+        preOf w' f =
+          (bPre ++ (match w.checker? f with | some ck => w.heap.get ck.pre | none => [])).map w.heap.get) ∧
       w'.heap.get ck'.snaps = bSnaps ++ (match w.checker? f with | some ck => w.heap.get ck.snaps | none => []) ∧
       w'.heap.get ck'.posts = bPosts ++ (match w.checker? f with | some ck => w.heap.get ck.posts | none => []) := by
   rcases decorateOne_cases w w' key f true have_ bPre bSnaps bPosts hok with ⟨_, h | h⟩ | rfl
   · cases h
   · exact absurd h hsome
-  · exact ⟨_, installed_checker _ _ _ _ _, (installed_heap _ _ _ _ _).1, (installed_heap _ _ _ _ _).2.1,
-      (installed_heap _ _ _ _ _).2.2⟩
+  · have hck := installed_checker (copyCells w bPre).1 f ((copyCells w bPre).2 ++ ownPre w f)
+      (bSnaps ++ ownSnaps w f) (bPosts ++ ownPosts w f)
+    have hh := installed_heap (copyCells w bPre).1 f ((copyCells w bPre).2 ++ ownPre w f)
+      (bSnaps ++ ownSnaps w f) (bPosts ++ ownPosts w f)
+    have fr12 := installed_frame (copyCells w bPre).1 f ((copyCells w bPre).2 ++ ownPre w f)
+      (bSnaps ++ ownSnaps w f) (bPosts ++ ownPosts w f)
+    have hp01 := copyCells_hpres w bPre
+    refine ⟨_, hck, ?_, ?_, hh.2.1, hh.2.2⟩
+    · rw [hh.1, copyCells_snd]; rfl
+    · intro hwf
+      simp only [preOf, hck, hh.1, List.map_append]
+      congr 1
+      · rw [← copyCells_contents w bPre (fun g hg => hwf g (List.mem_append_left _ hg))]
+        exact List.map_congr_left (fun g hg => fr12.heap.1 g (copyCells_snd_mem w bPre g hg).2)
+      · exact List.map_congr_left (fun g hg =>
+          (hp01.trans fr12.heap).1 g (hwf g (List.mem_append_right _ hg)))
 
 /-- **Constructors are not inherited**: for `__init__` / `__new__` nothing is collapsed, whatever the bases carry. -/
 theorem C04_constructor_contracts_not_inherited (w : World) (bases : List ClsId) (f : FnId) :
